@@ -229,8 +229,11 @@ def run_search(spec, rec):
                 if rng.random() < 0.6:
                     v = rng.normal(size=3)
                     pos[i] = pos[i - 1] + v / np.linalg.norm(v) * rng.uniform(0.8, 1.3)
-        pbc = bool(rng.random() < 0.6)
+        # fully periodic, not periodic, or periodic along some axes only (slabs, wires)
+        pk = rng.random()
+        pbc = True if pk < 0.4 else (False if pk < 0.6 else [bool(x) for x in rng.permutation([True, True, False] if rng.random() < 0.5 else [True, False, False])])
         atoms = Atoms(syms, positions=pos, cell=cell, pbc=pbc)
+        pbc = "".join("TF"[not b] for b in atoms.pbc)
         ck = rng.choice(["scalar", "dict", "radii"], p=[0.5, 0.3, 0.2])
         if ck == "scalar":
             cutoff = float(rng.uniform(0.9, 2.4))
